@@ -251,6 +251,12 @@ func (m *engineMon) afterOp(opLine string, pre *pokerface.GameState, err error) 
 				}
 			}
 		}
+		rel := 0
+		if op.kind == "act" && op.seat >= 0 && n > 0 {
+			rel = ((op.seat-pst.CurrentPlayer)%n + n) % n
+		}
+		o.Mark("C04", fmt.Sprintf("%s/%s/%s/%s/%d/%v/%s", pst.CurrentEvent, pst.Round, op.kind, op.act, rel, mustRefuse, errName(err)))
+		o.Mark("C06", fmt.Sprintf("%s/%s/%s/%s/%s/%d", pst.CurrentEvent, pst.Round, op.kind, op.act, errName(err), n))
 		if mustRefuse && err == nil {
 			m.V("C04", "refused_when", fmt.Sprintf("%s was accepted at event %s with player to act %d (offered: %v)", opLine, pst.CurrentEvent, pst.CurrentPlayer, allowedOf(pre)))
 		}
@@ -337,6 +343,7 @@ func (m *engineMon) afterOp(opLine string, pre *pokerface.GameState, err error) 
 		}
 		if closedNow {
 			o.Count("engine.round_closed_by_action")
+			o.Mark("C05", fmt.Sprintf("%s/%d/%d/%d/%d/%s/%v", st.Round, n, alive(gs), movable(gs), m.quiet, op.act, wentAllin))
 		}
 	}
 	if pre != nil && err == nil && op.kind == "next" && m.aloneAt >= 0 {
